@@ -221,10 +221,14 @@ bool comp_init(zckCtx *zck) {
                 zck->chunk_auto_max = zck->chunk_max_size;
             zck_log(ZCK_LOG_DEBUG, "Setting automatic maximum chunk size to %llu",
                     (long long unsigned) zck->chunk_auto_max);
-            /* The maximum is a hard limit: a minimum above it would refuse
-             * every chunk end and zck_write() would never return */
-            if(zck->chunk_auto_min > zck->chunk_auto_max)
+            /* The configured limits win over the automatic ones: a minimum
+             * above the maximum would refuse every chunk end and zck_write()
+             * would never return */
+            if(zck->chunk_auto_min > zck->chunk_auto_max) {
+                if(zck->chunk_min_size > zck->chunk_auto_max)
+                    zck->chunk_auto_max = zck->chunk_min_size;
                 zck->chunk_auto_min = zck->chunk_auto_max;
+            }
         }
     }
 
